@@ -484,9 +484,15 @@ def order(index, db, rep):
               "intake caps read consumed_kcals[month] before add_total_human_consumption_to_model created it "
               "(the placeholder 0 would cap every resilient food at 0)", loc=loc(OPT, fn))
     # the objective constraints come after consumed_kcals exist for all months
-    rep.check(for_of("add_maximize_min_month_objective_to_model") is not None
-              and for_of("add_maximize_min_month_objective_to_model") > for_of("add_total_human_consumption_to_model"),
-              rule, "objective-after-consumption",
+    obj_for = for_of("add_maximize_min_month_objective_to_model")
+    if obj_for is not None:
+        ok_obj = obj_for > for_of("add_total_human_consumption_to_model")
+    else:
+        # the objective routine loops over the months itself and is called once: after the loop that creates consumed_kcals has finished
+        oc_ = [c for c in calls if c[2] == "add_maximize_min_month_objective_to_model"]
+        cons_for = fors[for_of("add_total_human_consumption_to_model")]
+        ok_obj = len(oc_) == 1 and oc_[0][0] > max(getattr(n_, "lineno", 0) for n_ in ast.walk(cons_for))
+    rep.check(ok_obj, rule, "objective-after-consumption",
               "max-min objective constraints are built before consumed_kcals variables exist", loc=loc(OPT, fn))
     # every month is covered: loops are range(0, self.NMONTHS)
     for f in fors:
